@@ -32,6 +32,7 @@ type c12Solver struct {
 func vc12(c tNetCfg) {
 	t := tBuild(c)
 	vAssume(t.allReachable())
+	vAssume(t.acyclic())
 	d := t.depth()
 	vAssume(d >= 1)
 	steps := d + vChoice("extraSteps", 2)
@@ -45,6 +46,8 @@ func vc12(c tNetCfg) {
 	}
 	fr, _ := t.net.FastNetworkSolver()
 	fx, _ := t.net.FastNetworkSolver()
+	// the standard solver's own "as many steps as the network is deep" route, on an independent instance
+	tr := t.clone()
 	solvers := []c12Solver{
 		{"standard solver", t.net.LoadSensors, func() error { _, e := t.net.ForwardSteps(steps); return e }, t.net.ReadOutputs},
 		{"fast forward stepping", fs.LoadSensors, func() error { _, e := fs.ForwardSteps(steps); return e }, fs.ReadOutputs},
@@ -58,6 +61,7 @@ func vc12(c tNetCfg) {
 			}
 			return nil
 		}, fx.ReadOutputs},
+		{"standard solver, recursive steps", tr.net.LoadSensors, func() error { _, e := tr.net.RecursiveSteps(); return e }, tr.net.ReadOutputs},
 	}
 	// two input vectors in a row on the SAME instances: the value depends on the loaded inputs only
 	for round := 0; round < 2; round++ {
@@ -102,9 +106,17 @@ func VC12_NoBias_Quick() {
 func VC12_Uninterpreted_Quick() {
 	vc12(tNetCfg{nIn: 1, nBias: 1, nHid: 1, nOut: 1, symTypes: true})
 }
+func VC12_TwoOut_Quick() {
+	vc12(tNetCfg{nIn: 1, nBias: 1, nHid: 1, nOut: 2, atype: neatmath.LinearActivation})
+}
+
+// two hidden nodes whose link may run against the id order
+func VC12_TwoHidden_Quick() {
+	vc12(tNetCfg{nIn: 1, nBias: 1, nHid: 2, nOut: 1, hidAnyOrder: true, atype: neatmath.LinearActivation})
+}
 func VC12_Linear_Thorough() {
-	vc12(tNetCfg{nIn: 2, nBias: 1, nHid: 2, nOut: 1, atype: neatmath.LinearActivation})
+	vc12(tNetCfg{nIn: 2, nBias: 1, nHid: 2, nOut: 1, hidAnyOrder: true, atype: neatmath.LinearActivation})
 }
 func VC12_Uninterpreted_Thorough() {
-	vc12(tNetCfg{nIn: 1, nBias: 1, nHid: 2, nOut: 1, symTypes: true})
+	vc12(tNetCfg{nIn: 1, nBias: 1, nHid: 2, nOut: 1, hidAnyOrder: true, symTypes: true})
 }
